@@ -25,6 +25,22 @@ CHECKS = {
     text="Kernel-checked refinement theorem: for EVERY wrapped store that behaves like the dictionary specification, every capacity and every operation sequence (absent keys, None blobs, re-stored keys), LRUCacheStore's answers equal the dictionary's (transparent), the wrapper itself refines the dictionary (so wrappers compose with the store refinements of C08), and the cache never exceeds its capacity in any reachable state (bounded); table theorems for set_store(cache_objects). Lock-step correspondence: bare store vs real wrapper vs Lean dictionary vs Lean wrapper, plus cache sizes and live-object counts through weak references.",
     note="values are opaque objects compared by equality; inner stores memory and local in the correspondence; correspondence sampled",
     technique="Lean 4 proof (simulation/refinement with an inductive invariant over operation sequences) + lock-step differential correspondence"),
+ "C01": dict(
+    text="Executable Lean model of the whole evaluation pipeline (indirect pre-pass, analysis with signature composition, overlap check, evaluation with stores, plain execution as Herbrand terms) reproduces the implementation on every step of generated histories: returned value, error, executed bodies, byte-exact signatures, and the dds-free run of the same files. Kernel-checked so far (stage 1): a kept call serves a blob only under exactly the key fixed by the analysis, a rejected evaluation runs nothing and leaves the store untouched, a root hit runs nothing. The implementation-level oracle (dds value == plain execution of the same files, every step, stores memory/local/local+cache/noop, edits/reverts/restarts/copies) decides the property on the explored histories; sig_sound (signature determines the plain value) is stage 2 of the proof.",
+    note="PARTIAL proof: the history theorem C01_memo_correct is not yet proved; what is proved are the operational lemmas it rests on, the argument/signature algebra (C05, C13) and the store refinements (C08, C12). Supported subset as in DESIGN §8 (no classes/lambdas/conditionals around keep in the model). Correspondence and oracle are sampled.",
+    technique="Lean 4 model + proved operational lemmas; three-way differential execution (real dds / dds-free run of the same files / Lean model) over seeded edit histories"),
+ "C02": dict(
+    text="Same model and three-way execution as C01; decided per step: after a step that changes nothing a kept function can observe (identical re-evaluation, restart, revert, unrelated definitions, reordering, non-accepted edits, copy to another accepted module, direct call after dds.eval) no kept body runs; after a single edit a context-free kept node that cannot reach the edit does not run; in general the executed set equals the model's. Kernel-checked (stage 1): the analysis reads the store only through the path table, a hit runs nothing, storing blobs never changes the path table.",
+    note="PARTIAL proof: cone_eq_iff_sig_eq and the history theorem are stage 2; the cone of DESIGN §4.1 is used through its context-free part in the implementation oracle and through the model's executed set otherwise. Sampled.",
+    technique="Lean 4 model + proved lemmas; differential execution with per-step classification of what changed"),
+ "C04": dict(
+    text="Kernel-checked: after a commit of a path->key map with distinct paths every committed path resolves to its key (commit_sets), every other path keeps its content (commit_frame), blobs are untouched; lifted to LocalFileStore and the cached store by the C08/C12 refinements. Correspondence: committed path table equals the model's byte for byte after every step. Implementation oracle: after every step, every path kept so far loads (same process, fresh process, raw file under the data directory) the value its latest keep returned.",
+    note="the value clause rests on blob closure (stage 2 of C02) - currently decided by the oracle; DBFS part is in C19; sampled",
+    technique="Lean 4 proof (frame/update lemmas over the path table, store refinement) + differential histories with load/file/fresh-process observation"),
+ "C08": dict(
+    text="Kernel-checked refinement: for every operation sequence over a universe of located paths with pairwise different segment lists, LocalFileStore (request level) answers exactly like the dictionary specification = MemoryStore (local_refines), and so does the cache-wrapped local store for every capacity (cached_local_refines, composing C12); loc_injective / loc_contained: a location is the path's own list of non-empty segments, never '.'/'..', so different segment lists never alias and nothing escapes the data directory. Lock-step correspondence on memory/local/local+cache (and DBFS fake when built) incl. reopen, ambiguous names (a, b, ab), spaces, unicode, dots; realpath containment and link-per-path checks on the real tree.",
+    note="disk abstracted to the files/links the store creates (request-level atomicity; crashes and interleavings are C06/C07); a path and its extension are not both committed (C11); codecs abstracted to an injective encoding; sampled correspondence",
+    technique="Lean 4 proof (simulation relation LocalSt ~ Dict, composition with the LRU simulation) + lock-step differential correspondence"),
 }
 NOT_YET = "check not built yet in this round (work in progress, see DESIGN.md §10)"
 
